@@ -161,7 +161,7 @@ pub fn minimise(rf: &ReplayFile, tmp: &str, budget: Duration, jobs: usize) -> Re
 				let sig = cur.signature.clone();
 				let ab = (*a, *b);
 				handles.push(std::thread::spawn(move || {
-					let r = run_replay_file(&path, &tmp2, &tag, Duration::from_secs(120));
+					let r = run_replay_file(&path, &tmp2, &tag, Duration::from_secs(600));
 					(ab, reproduces(&r, &oracle, &sig))
 				}));
 			}
@@ -201,7 +201,7 @@ pub fn minimise(rf: &ReplayFile, tmp: &str, budget: Duration, jobs: usize) -> Re
 			c.trace[i].node_fail = None;
 			let path = format!("{}/min-f-{}.json", tmp, i);
 			let _ = std::fs::write(&path, serde_json::to_string(&c).unwrap());
-			let r = run_replay_file(&path, tmp, &format!("f{}", i), Duration::from_secs(120));
+			let r = run_replay_file(&path, tmp, &format!("f{}", i), Duration::from_secs(600));
 			if reproduces(&r, &cur.oracle, &cur.signature) {
 				cur = c;
 			}
@@ -263,7 +263,7 @@ pub fn cmd_batch(a: &Args) -> i32 {
 	let mut failures: Vec<(u64, ReplayFile)> = vec![];
 	let mut abnormal: Vec<(u64, String)> = vec![];
 	let mut aborted: BTreeMap<String, u64> = BTreeMap::new();
-	let run_timeout = Duration::from_secs(if thorough { 600 } else { 300 });
+	let run_timeout = Duration::from_secs(if thorough { 1800 } else { 900 });
 	let mut hashes: Vec<(u64, String)> = vec![];
 	let mut known_cont_hits: BTreeMap<String, u64> = BTreeMap::new();
 	loop {
